@@ -56,8 +56,10 @@ def chunk_of(i, binary):
     return s.encode() if binary else s
 
 
-def make_family(fam, binary, k, exc_obj, direction):
-    """element classes whose read/write handles one chunk, the k-th call raising exc_obj"""
+def make_family(fam, binary, k, exc_obj, direction, iter_read=False):
+    """element classes whose read/write handles one chunk, the k-th call raising exc_obj;
+    with `iter_read` the failing element first consumes a line by ITERATING the file
+    (`next(file)`), which is how a read-to-the-end element loops over its lines"""
     counter = {"n": 0}
 
     def do_write(self, file, *a, **kw):
@@ -71,6 +73,11 @@ def make_family(fam, binary, k, exc_obj, direction):
         i = counter["n"]
         counter["n"] += 1
         if i == k and direction == "read":
+            if iter_read:
+                try:
+                    next(iter(file))
+                except StopIteration:
+                    pass
             raise exc_obj
         self.data = file.readline()
         return True
@@ -147,7 +154,7 @@ def run_impl(case):
     exc_obj = EXC[case["exc"]]("injected fault") if k is not None else None
     d = tempfile.mkdtemp(prefix="cfi-c17-")
     try:
-        E, F, Data, Dflt = make_family(fam, binary, k, exc_obj, direction)
+        E, F, Data, Dflt = make_family(fam, binary, k, exc_obj, direction, case.get("iter_read", False))
         expected_prefix = (b"" if binary else "").join(chunk_of(i, binary) for i in range(n if k is None else k))
         raised = None
         out = {"buffer_closed": False, "buffer_at_end": True, "output_is_prefix": True}
@@ -288,6 +295,8 @@ def all_cases():
                                 if k is None and exc != "ValueError":
                                     continue
                                 yield {"family": fam, "binary": binary, "direction": direction, "where": where, "n": n, "k": k, "exc": exc}
+                                if direction == "read" and k is not None and exc in ("ValueError", "Custom"):
+                                    yield {"family": fam, "binary": binary, "direction": direction, "where": where, "n": n, "k": k, "exc": exc, "iter_read": True}
 
 
 def corpus_cases():
